@@ -23,6 +23,7 @@ import (
 
 	"github.com/sirupsen/logrus"
 
+	"github.com/dfklegend/cell2/utils/common"
 	"github.com/dfklegend/cell2/utils/logger"
 	"github.com/dfklegend/cell2/utils/runservice"
 	"github.com/dfklegend/cell2/utils/sche"
@@ -122,6 +123,18 @@ func (l *evlog) add(e hx.T) {
 	atomic.AddInt64(&l.activity, 1)
 }
 
+// addOn records an event that must run on goroutine `want`.
+func (l *evlog) addOn(e hx.T, want int64) {
+	g := curGoid()
+	l.mu.Lock()
+	if g != want {
+		l.gorBad = true
+	}
+	l.evs = append(l.evs, e)
+	l.mu.Unlock()
+	atomic.AddInt64(&l.activity, 1)
+}
+
 func (l *evlog) addRaw(e hx.T) {
 	l.mu.Lock()
 	l.evs = append(l.evs, e)
@@ -195,14 +208,23 @@ type fireKey struct{ c, i, k int64 }
 
 // buildChain makes the real waterfall tasks / final for one scripted chain.  `later` is
 // called for every callback a task gives away.
-func buildChain(l *evlog, c int64, tasks []behSpec, later func(key fireKey, f func())) ([]waterfall.Task, waterfall.FinalCallback) {
+// `want` (may be nil = the scheduler's consumer) gives the goroutine every task and final of
+// this chain must run on at that moment.
+func buildChain(l *evlog, c int64, tasks []behSpec, later func(key fireKey, f func()), want func() int64) ([]waterfall.Task, waterfall.FinalCallback) {
+	rec := func(e hx.T) {
+		if want == nil {
+			l.add(e)
+		} else {
+			l.addOn(e, want())
+		}
+	}
 	fns := make([]waterfall.Task, len(tasks))
 	for idx := range tasks {
 		i := int64(idx)
 		b := tasks[idx]
 		fns[idx] = func(cb waterfall.Callback, args ...interface{}) {
 			defer atomic.AddInt64(&l.activity, 1)
-			l.add(hx.C("STask", c, i, fromIface(args)))
+			rec(hx.C("STask", c, i, fromIface(args)))
 			for _, x := range b.il {
 				cb(x.err, toIface(x.res)...)
 			}
@@ -216,7 +238,7 @@ func buildChain(l *evlog, c int64, tasks []behSpec, later func(key fireKey, f fu
 		}
 	}
 	final := func(err bool, args ...interface{}) {
-		l.add(hx.C("SFinal", c, err, fromIface(args)))
+		rec(hx.C("SFinal", c, err, fromIface(args)))
 	}
 	return fns, final
 }
@@ -256,7 +278,7 @@ func valid(ops []hx.T) bool {
 				total += int(n)
 			}
 		case "OStep", "OStop":
-		case "OChain":
+		case "OChain", "OChainB":
 			hasChain = true
 			if o.Int(0) < 0 {
 				return false
@@ -265,6 +287,16 @@ func valid(ops []hx.T) bool {
 			for _, b := range parseTasks(o.List(1)) {
 				total += behSize(b)
 			}
+		case "OSimple", "OWait":
+			hasChain = true
+			if o.Int(0) < 0 {
+				return false
+			}
+		case "OMgrGet", "OMgrDel":
+			hasChain = true
+			if n := o.Int(0); n < 0 || n >= 8 {
+				return false
+			}
 		case "OFire":
 			hasChain = true
 			if o.Int(0) < 0 || o.Int(1) < 0 || o.Int(2) < 0 {
@@ -272,14 +304,14 @@ func valid(ops []hx.T) bool {
 			}
 		case "OConc":
 			m := o.Int(0)
-			if m < 0 || m >= 4 || len(o.List(1)) > 64 {
+			if m < 0 || m >= 5 || len(o.List(1)) > 64 {
 				return false
 			}
 			if m >= 2 && kindsHavePanic(o.List(1)) {
 				return false
 			}
 		case "OConcN":
-			if m := o.Int(0); m < 0 || m >= 4 {
+			if m := o.Int(0); m < 0 || m >= 5 {
 				return false
 			}
 			if np := o.Int(1); np < 0 || np > 64 {
@@ -329,9 +361,117 @@ type scriptRun struct {
 	posters  map[int64]*posterG
 	stopped  bool
 	esc      int32
+	pmu      sync.Mutex
 	pending  map[fireKey]func()
-	chains   map[int64]bool
+	chains   map[int64]*chainG
+	curTop   int64 // goroutine performing the current top-level Simple call / callback
+	mgr      *sche.Mgr
+	mgrIds   map[*sche.Sche]int64
 	timedOut bool
+}
+
+// chainG: what the harness knows about one declared chain
+type chainG struct {
+	kind    string // "sche" | "simple" | "wait"
+	goid    int64  // wait: the goroutine that called ExecAndWait
+	done    chan struct{}
+	paniced int32 // wait: set by the caller goroutine when a panic left ExecAndWait
+	final   int   // wait: 0 running/parked, 1 returned, 2 panicked, 3 stuck (already reported)
+}
+
+func (r *scriptRun) setPending(k fireKey, f func()) {
+	r.pmu.Lock()
+	r.pending[k] = f
+	r.pmu.Unlock()
+}
+
+func (r *scriptRun) takePending(k fireKey) (func(), bool) {
+	r.pmu.Lock()
+	defer r.pmu.Unlock()
+	f, ok := r.pending[k]
+	if ok {
+		delete(r.pending, k)
+	}
+	return f, ok
+}
+
+// goWait runs f on a fresh goroutine and waits until it has finished or is parked for ever in
+// a channel send.  Returns (panicked, stuck).
+func (r *scriptRun) goWait(f func(), setTop bool) (panicked, stuck bool) {
+	done := make(chan struct{})
+	var goid int64
+	var pan int32
+	go func() {
+		defer close(done)
+		defer func() {
+			if e := recover(); e != nil {
+				atomic.StoreInt32(&pan, 1)
+			}
+		}()
+		atomic.StoreInt64(&goid, curGoid())
+		if setTop {
+			atomic.StoreInt64(&r.curTop, curGoid())
+		}
+		f()
+	}()
+	deadline := time.Now().Add(waitMax)
+	for i := 0; ; i++ {
+		select {
+		case <-done:
+			return atomic.LoadInt32(&pan) != 0, false
+		default:
+		}
+		if i < 50 {
+			runtime.Gosched()
+			continue
+		}
+		if g := atomic.LoadInt64(&goid); g != 0 && strings.HasPrefix(goroutineStates()[g], "chan send") {
+			return false, true
+		}
+		if time.Now().After(deadline) {
+			r.timedOut = true
+			return false, false
+		}
+		time.Sleep(20 * time.Microsecond)
+	}
+}
+
+// settleCaller waits until the ExecAndWait caller of ch has left or is parked, and returns
+// the status events that are new.
+func (r *scriptRun) settleCaller(c int64, ch *chainG) []any {
+	if ch.final != 0 {
+		return nil
+	}
+	deadline := time.Now().Add(waitMax)
+	for i := 0; ; i++ {
+		select {
+		case <-ch.done:
+			if atomic.LoadInt32(&ch.paniced) != 0 {
+				ch.final = 2
+				return []any{hx.C("SEsc", c)}
+			}
+			ch.final = 1
+			return []any{hx.C("SRet", c)}
+		default:
+		}
+		if i < 50 {
+			runtime.Gosched()
+			continue
+		}
+		st := goroutineStates()[atomic.LoadInt64(&ch.goid)]
+		if strings.HasPrefix(st, "chan receive") {
+			return nil
+		}
+		if strings.HasPrefix(st, "chan send") {
+			ch.final = 3
+			return []any{hx.C("SHang", c)}
+		}
+		if time.Now().After(deadline) {
+			r.timedOut = true
+			return nil
+		}
+		time.Sleep(20 * time.Microsecond)
+	}
 }
 
 func (r *scriptRun) consumerLoop(ready chan struct{}) {
@@ -483,7 +623,9 @@ func Exec(ops []hx.T, tags map[string]bool) (obs any, nontrivial bool) {
 		quit:     make(chan struct{}),
 		posters:  map[int64]*posterG{},
 		pending:  map[fireKey]func(){},
-		chains:   map[int64]bool{},
+		chains:   map[int64]*chainG{},
+		mgr:      sche.NewScheMgr(),
+		mgrIds:   map[*sche.Sche]int64{},
 	}
 	ready := make(chan struct{})
 	go r.consumerLoop(ready)
@@ -534,41 +676,101 @@ func Exec(ops []hx.T, tags map[string]bool) (obs any, nontrivial bool) {
 				r.settle()
 			}
 			perOp = append(perOp, snapshot())
-		case "OChain":
+		case "OChain", "OChainB":
 			c := o.Int(0)
-			if !r.chains[c] {
-				r.chains[c] = true
-				fns, final := buildChain(r.log, c, parseTasks(o.List(1)), func(k fireKey, f func()) { r.pending[k] = f })
+			if r.chains[c] == nil {
+				r.chains[c] = &chainG{kind: "sche"}
+				fns, final := buildChain(r.log, c, parseTasks(o.List(1)), r.setPending, nil)
 				func() {
 					defer func() {
 						if e := recover(); e != nil {
 							atomic.StoreInt32(&r.esc, 1)
 						}
 					}()
-					waterfall.Sche(r.s, fns, final)
+					if o.Name == "OChain" {
+						waterfall.Sche(r.s, fns, final)
+					} else {
+						b := waterfall.NewBuilder(r.s)
+						for _, f := range fns {
+							b = b.Next(f)
+						}
+						b.Final(final).Do()
+					}
 				}()
 			}
 			perOp = append(perOp, snapshot())
-		case "OFire":
-			k := fireKey{o.Int(0), o.Int(1), o.Int(2)}
-			if f, ok := r.pending[k]; ok {
-				delete(r.pending, k)
-				done := make(chan struct{})
-				go func() { // the environment: some other goroutine completes the task
-					defer close(done)
-					defer func() {
-						if e := recover(); e != nil {
-							atomic.StoreInt32(&r.esc, 1)
-						}
-					}()
-					f()
-				}()
-				select {
-				case <-done:
-				case <-time.After(waitMax):
-					r.timedOut = true
+		case "OSimple":
+			c := o.Int(0)
+			var extra []any
+			if r.chains[c] == nil {
+				r.chains[c] = &chainG{kind: "simple"}
+				fns, final := buildChain(r.log, c, parseTasks(o.List(1)), r.setPending,
+					func() int64 { return atomic.LoadInt64(&r.curTop) })
+				pan, _ := r.goWait(func() { waterfall.Simple(fns, final) }, true)
+				if pan {
+					extra = append(extra, hx.C("SEsc", c))
 				}
 			}
+			perOp = append(perOp, append(snapshot(), extra...))
+		case "OWait":
+			c := o.Int(0)
+			var extra []any
+			if r.chains[c] == nil {
+				ch := &chainG{kind: "wait", done: make(chan struct{})}
+				r.chains[c] = ch
+				fns, final := buildChain(r.log, c, parseTasks(o.List(1)), r.setPending,
+					func() int64 { return atomic.LoadInt64(&ch.goid) })
+				started := make(chan struct{})
+				go func() {
+					defer close(ch.done)
+					defer func() {
+						if e := recover(); e != nil {
+							atomic.StoreInt32(&ch.paniced, 1)
+						}
+					}()
+					atomic.StoreInt64(&ch.goid, curGoid())
+					close(started)
+					waterfall.ExecAndWait(fns, final)
+				}()
+				<-started
+				extra = r.settleCaller(c, ch)
+			}
+			perOp = append(perOp, append(snapshot(), extra...))
+		case "OFire":
+			k := fireKey{o.Int(0), o.Int(1), o.Int(2)}
+			var extra []any
+			if f, ok := r.takePending(k); ok {
+				ch := r.chains[k.c]
+				// the environment: some other goroutine completes the task
+				pan, stuck := r.goWait(f, ch.kind == "simple")
+				switch ch.kind {
+				case "sche":
+					if pan {
+						atomic.StoreInt32(&r.esc, 1)
+					}
+				default:
+					if pan {
+						extra = append(extra, hx.C("SEsc", k.c))
+					}
+					if stuck {
+						extra = append(extra, hx.C("SHang", k.c))
+					}
+				}
+				if ch.kind == "wait" {
+					extra = append(extra, r.settleCaller(k.c, ch)...)
+				}
+			}
+			perOp = append(perOp, append(snapshot(), extra...))
+		case "OMgrGet":
+			got := r.mgr.GetSche(fmt.Sprintf("n%d", o.Int(0)))
+			id, ok := r.mgrIds[got]
+			if !ok {
+				id = int64(len(r.mgrIds))
+				r.mgrIds[got] = id
+			}
+			perOp = append(perOp, append(snapshot(), hx.C("SMgr", id)))
+		case "OMgrDel":
+			r.mgr.DelSche(fmt.Sprintf("n%d", o.Int(0)))
 			perOp = append(perOp, snapshot())
 		case "OConc":
 			ev, g, e := runConc(o.Int(0), o.List(1), tags)
@@ -680,7 +882,11 @@ func waitChan(ch <-chan struct{}, abort func() bool) bool {
 }
 
 // runConc: mode 0 Sche.Handler started first; 1 Handler gated by a first blocking closure
-// until every poster is done or blocked on the full queue; 2/3 the same on a RunService.
+// until every poster is done or blocked on the full queue; 2/3 the same on a RunService
+// (3: auto-named); 4 RunService with detailed perf logging and three slow closures (the
+// heavy-frame accounting of the loop must not disturb the order).  On a RunService every odd
+// poster posts through the registry (GetScheMgr().GetSche(name)), which must be the same
+// scheduler; after Stop the service reports stopped and the name is free again.
 func runConc(mode int64, progs []any, tags map[string]bool) (events []any, gor, esc bool) {
 	l := &evlog{foreign: map[int64]bool{}}
 	var s *sche.Sche
@@ -688,6 +894,7 @@ func runConc(mode int64, progs []any, tags map[string]bool) (events []any, gor, 
 	var escFlag int32
 	handlerDone := make(chan struct{})
 	gated := mode == 1 || mode == 3
+	var viaReg *sche.Sche
 	gate := make(chan struct{})
 	var gateGoid int64
 	startConsumer := func() {
@@ -715,8 +922,27 @@ func runConc(mode int64, progs []any, tags map[string]bool) (events []any, gor, 
 	if mode <= 1 {
 		s = sche.NewSche()
 	} else {
-		rs = runservice.NewRunService(fmt.Sprintf("c15-rs-%d", atomic.AddInt64(&rsCounter, 1)))
+		name := fmt.Sprintf("c15-rs-%d", atomic.AddInt64(&rsCounter, 1))
+		if mode == 3 {
+			name = "" // NewRunService picks "rs<serial>"
+		}
+		rs = runservice.NewRunService(name)
 		s = rs.GetScheduler()
+		viaReg = runservice.GetScheMgr().GetSche(rs.Name)
+		if viaReg != s || rs.GetSelector() == nil || rs.IsStopped() {
+			l.addRaw(hx.C("SBad", 1))
+		}
+		if mode == 4 {
+			runservice.SetPerfLogLevel(runservice.LevelDetail)
+			common.VerifSetNowMs(1000000)
+			defer func() {
+				runservice.SetPerfLogLevel(runservice.LevelNormal)
+				common.VerifSetNowNano(0) // back to the real clock
+			}()
+			if rs.GetValue("c15") != nil { // blackboard of a new service is empty
+				l.addRaw(hx.C("SBad", 5))
+			}
+		}
 	}
 	if gated {
 		s.Post(func() { // not logged; it only holds the consumer
@@ -767,8 +993,18 @@ func runConc(mode int64, progs []any, tags map[string]bool) (events []any, gor, 
 							atomic.StoreInt32(&escFlag, 1)
 						}
 					}()
-					t = s.Post(func() {
+					target := s
+					if viaReg != nil && p%2 == 1 {
+						target = viaReg
+					}
+					t = target.Post(func() {
 						l.add(hx.C("SExec", p, n))
+						if mode == 4 && p == 0 && n < 3 {
+							// a slow closure on the virtual clock (35 ms, 55 ms, then 11 s later 105 ms):
+							// every branch of the loop's heavy-frame accounting
+							d := []int64{35, 55, 11105}[n]
+							common.VerifSetNowNano(common.NowNano() + d*1000000)
+						}
 						if pan {
 							panic("c15: scripted closure panic")
 						}
@@ -835,6 +1071,15 @@ func runConc(mode int64, progs []any, tags map[string]bool) (events []any, gor, 
 	}
 	if rs != nil {
 		rs.Stop()
+		if !waitUntil(rs.IsStopped) {
+			l.addRaw(hx.C("SBad", 2))
+		}
+		// Stop removed the name from the registry: the next GetSche makes a fresh scheduler
+		fresh := runservice.GetScheMgr().GetSche(rs.Name)
+		if fresh == s || fresh.Post(func() {}) == nil {
+			l.addRaw(hx.C("SBad", 3))
+		}
+		runservice.GetScheMgr().DelSche(rs.Name)
 	} else {
 		s.Stop()
 	}
@@ -906,7 +1151,7 @@ func runConcW(mode int64, chains []any, tags map[string]bool) (events []any, gor
 	start := make(chan struct{})
 	for ci := range chains {
 		c := int64(ci)
-		fns, final := buildChain(l, c, parseTasks(chains[ci].([]any)), later)
+		fns, final := buildChain(l, c, parseTasks(chains[ci].([]any)), later, nil)
 		wg.Add(1)
 		go func() {
 			defer wg.Done()
